@@ -184,10 +184,24 @@ fn show_blocks(infos: &[NtInfo]) -> String {
     infos.iter().map(|b| format!("{}@{}@{}@{}", b.nt, b.k, b.maxterm, show_sets(&b.sets))).collect::<Vec<_>>().join("/")
 }
 
+/// Tuples as `KTuplesBuilder` keeps them: at most k terminals, EOI only in last position
+/// (anything else is answered `bad-op` on both sides).
+fn normal(k: usize, sets: &Sets) -> Option<()> {
+    for (_, ts) in sets {
+        for t in ts {
+            if t.len() > k || t.iter().rev().skip(1).any(|x| *x == 0) {
+                return None;
+            }
+        }
+    }
+    Some(())
+}
+
 pub fn run_case(w: &[&str]) -> Option<String> {
     match w {
         ["lad", k, maxterm, sets] => {
             let sets = parse_sets(sets)?;
+            normal(k.parse().ok()?, &sets)?;
             Some(match united(k.parse().ok()?, maxterm.parse().ok()?, &sets)? {
                 Ok(d) => show_lad(&d),
                 Err(()) => "conflict".into(),
@@ -195,6 +209,7 @@ pub fn run_case(w: &[&str]) -> Option<String> {
         }
         ["cmp", k, maxterm, sets] => {
             let sets = parse_sets(sets)?;
+            normal(k.parse().ok()?, &sets)?;
             Some(match united(k.parse().ok()?, maxterm.parse().ok()?, &sets)? {
                 Ok(d) => {
                     let (p0, tr, k) = compile(&d)?;
@@ -243,11 +258,178 @@ pub fn run_case(w: &[&str]) -> Option<String> {
     }
 }
 
+/// Random prefix-free set of tuples (the leaves of a random tree of depth <= k over the letters
+/// 5..5+alpha and EOI = 0, which only ever ends a tuple). `ragged`: leaves above depth k that do not
+/// end in EOI are allowed (tuples the real builder classifies as Incomplete).
+fn random_leaves(rng: &mut Rng, k: usize, alpha: usize, ragged: bool) -> Vec<Tuple> {
+    let mut leaves = vec![];
+    let mut work: Vec<Tuple> = vec![vec![]];
+    while let Some(w) = work.pop() {
+        if w.len() >= k {
+            leaves.push(w);
+            continue;
+        }
+        let mut terms: Vec<u16> = vec![];
+        if rng.chance(1, 3) {
+            terms.push(0);
+        }
+        for a in 0..alpha {
+            if rng.chance(if w.is_empty() { 3 } else { 2 }, 4) {
+                terms.push(5 + a as u16);
+            }
+        }
+        if terms.is_empty() {
+            terms.push(5 + rng.below(alpha) as u16);
+        }
+        for t in terms {
+            let mut x = w.clone();
+            x.push(t);
+            if t == 0 || (ragged && rng.chance(1, 4)) {
+                leaves.push(x);
+            } else {
+                work.push(x);
+            }
+        }
+    }
+    leaves.sort();
+    leaves
+}
+
+fn random_sets(rng: &mut Rng, k: usize, alpha: usize, nprods: usize, ragged: bool) -> Sets {
+    let leaves = random_leaves(rng, k, alpha, ragged);
+    // distinct production numbers
+    let mut pool: Vec<usize> = (0..10).collect();
+    let mut ps = vec![];
+    for _ in 0..nprods {
+        let i = rng.below(pool.len());
+        ps.push(pool.remove(i));
+    }
+    ps.sort();
+    let mut sets: Sets = ps.iter().map(|p| (*p, vec![])).collect();
+    for l in leaves {
+        let i = rng.below(nprods);
+        sets[i].1.push(l);
+    }
+    // a production without tuples would make state 0 accepting (`k_tuples.is_empty()`): keep that rare
+    if !rng.chance(1, 12) {
+        sets.retain(|s| !s.1.is_empty());
+    }
+    if sets.is_empty() {
+        sets.push((ps[0], vec![]));
+    }
+    if rng.chance(1, 5) {
+        // not in ascending production order
+        let n = sets.len();
+        for _ in 0..n {
+            let i = rng.below(n);
+            let j = rng.below(n);
+            sets.swap(i, j);
+        }
+    }
+    sets
+}
+
+/// Random layered acyclic automaton (given as a `LookaheadDFA`: prods per state, edges), state
+/// numbers permuted (0 stays). `wild`: accepting inner states, back edges, unreachable states.
+fn random_dag(rng: &mut Rng, wild: bool) -> (usize, Vec<i32>, Vec<(usize, u16, usize)>) {
+    let depth = rng.range(1, 3);
+    let mut layers: Vec<Vec<usize>> = vec![vec![0]];
+    let mut n = 1;
+    for _ in 0..depth {
+        let w = rng.range(1, 4);
+        layers.push((n..n + w).collect());
+        n += w;
+    }
+    let nprods = rng.range(1, 3);
+    let alpha = rng.range(1, 4);
+    let mut edges: Vec<(usize, u16, usize)> = vec![];
+    let mut has_out = vec![false; n];
+    for li in 0..depth {
+        for &s in &layers[li] {
+            for a in 0..alpha {
+                if rng.chance(2, 3) {
+                    let lj = if wild && rng.chance(1, 8) { rng.range(0, depth) } else { rng.range(li + 1, depth) };
+                    let to = *rng.pick(&layers[lj]);
+                    edges.push((s, if rng.chance(1, 6) { 0 } else { 5 + a as u16 }, to));
+                    has_out[s] = true;
+                }
+            }
+        }
+    }
+    let mut prods: Vec<i32> = (0..n)
+        .map(|s| if !has_out[s] || (wild && rng.chance(1, 6)) { rng.below(nprods) as i32 + 1 } else { -1 })
+        .collect();
+    if has_out[0] && !wild {
+        prods[0] = -1;
+    }
+    // permute state numbers 1..n
+    let mut perm: Vec<usize> = (0..n).collect();
+    for i in (2..n).rev() {
+        let j = rng.range(1, i);
+        perm.swap(i, j);
+    }
+    let mut p2 = vec![0; n];
+    for s in 0..n {
+        p2[perm[s]] = prods[s];
+    }
+    let mut e2: Vec<(usize, u16, usize)> = edges.iter().map(|e| (perm[e.0], e.1, perm[e.2])).collect();
+    e2.sort();
+    e2.dedup_by(|a, b| a.0 == b.0 && a.1 == b.1);
+    (depth, p2, e2)
+}
+
 pub fn generate(seed: u64, thorough: bool) -> Vec<String> {
     let mut rng = Rng::new(seed ^ 0xC07);
     let mut out = vec![];
-    let _ = (&mut rng, thorough);
-    out.push("lad 2 8 0=0;1=5,6;2=5,7".to_string());
+    // (a) random pairwise disjoint prefix-free tuple sets -> trie/unite and compiled automaton
+    let nsets = if thorough { 2500 } else { 500 };
+    for i in 0..nsets {
+        let k = if i % 10 == 0 { 0 } else { rng.range(1, 3) };
+        let alpha = rng.range(1, 3);
+        let nprods = rng.range(1, 4);
+        let mut sets = random_sets(&mut rng, k, alpha, nprods, i % 4 == 3);
+        if i % 8 == 5 {
+            // outside the property's hypotheses (tie only): a tuple in two productions, or a proper prefix
+            let all: Vec<Tuple> = sets.iter().flat_map(|s| s.1.clone()).collect();
+            if !all.is_empty() {
+                let mut t = rng.pick(&all).clone();
+                if rng.chance(1, 2) && t.len() > 1 {
+                    t.pop();
+                }
+                let j = rng.below(sets.len());
+                if !sets[j].1.contains(&t) {
+                    sets[j].1.push(t);
+                }
+            }
+        }
+        let op = if i % 3 == 0 { "lad" } else { "cmp" };
+        out.push(format!("{} {} {} {}", op, k, 12, show_sets(&sets)));
+    }
+    // (b) compile + minimise of given automata
+    let ndag = if thorough { 2500 } else { 500 };
+    for i in 0..ndag {
+        let (depth, prods, edges) = random_dag(&mut rng, i % 5 == 4);
+        let es = if edges.is_empty() { "-".to_string() } else { edges.iter().map(|e| format!("{}:{}:{}", e.0, e.1, e.2)).collect::<Vec<_>>().join(";") };
+        out.push(format!("min {} {} {}", depth, show_nats(&prods), es));
+    }
+    // (c) end to end: random grammars accepted by the real LL(k) analysis
+    let want = if thorough { 1500 } else { 250 };
+    let maxk = 4;
+    let mut got = 0;
+    let mut tries = 0;
+    while got < want && tries < want * 200 {
+        tries += 1;
+        let c = GenCfg { max_nts: 5, max_terms: 3, max_prods_per_nt: 3, max_rhs: 3, nt_bias: 4, allow_undefined: false };
+        let g = random_gram(&mut rng, &c);
+        let Some((_, infos, _)) = std::panic::catch_unwind(|| analyse(&g, maxk)).ok().flatten() else { continue };
+        let kmax = infos.iter().map(|b| b.k).max().unwrap_or(0);
+        // most accepted random grammars are LL(1); keep every grammar that needs more, a third of the rest
+        if kmax < 2 && !rng.chance(1, 3) {
+            continue;
+        }
+        got += 1;
+        out.push(format!("e2e {} {} {}", maxk, g.show(), show_blocks(&infos)));
+    }
     out
 }
 
